@@ -5,9 +5,14 @@ package bfe_server
 
 import (
 	"bytes"
+	"compress/gzip"
 	"fmt"
+	"io/ioutil"
+	"net"
 	"strings"
 	"time"
+
+	"github.com/andybalholm/brotli"
 
 	"verif/simrt"
 	"verif/simrt/href"
@@ -28,6 +33,9 @@ func nodeProps() map[string]simrt.Prop {
 		"C27":   {Run: runNode("C27"), Opt: opt},
 		"C28":   {Run: runNode("C28"), Opt: opt},
 		"C48":   {Run: runNode("C48"), Opt: opt},
+		"C25":   {Run: runNode("C25"), Opt: opt},
+		"C29":   {Run: runNode("C29"), Opt: opt},
+		"C54":   {Run: runNode("C54"), Opt: opt},
 	}
 }
 
@@ -50,6 +58,26 @@ func runNode(focus string) func(s *simrt.Sim) {
 			nconn = 1
 		}
 		e.conf = e.genConf(nconn)
+		var modules []string
+		switch focus {
+		case "C25":
+			e.hostile = true
+		case "C29":
+			e.spoof = true
+			modules = []string{"mod_trust_clientip", "mod_header"}
+			e.conf.TrustRanges = [][2]string{{"10.77.0.0", "10.77.255.255"}, {"172.20.1.1", "172.20.1.1"}}
+			e.seenAddr = map[int]string{}
+			for ci := 0; ci < nconn; ci++ {
+				a := []string{"198.51.100.7", "10.77.3.4", "172.20.1.1", "172.20.1.2", "10.78.0.1"}[tp.Draw(5, "peer_ip")]
+				e.peerAddr = append(e.peerAddr, fmt.Sprintf("%s:%d", a, 30000+tp.Draw(20000, "peer_port")))
+			}
+		case "C54":
+			e.accEnc = true
+			modules = []string{"mod_compress"}
+			e.conf.Compress = []string{"GZIP", "BROTLI"}[tp.Draw(2, "compress_cmd")]
+			e.conf.CompressQ = 1 + tp.Draw(9, "compress_q")
+			e.conf.CompressFlush = []int{64, 512, 4096}[tp.Draw(3, "compress_flush")]
+		}
 		// forward-phase filter verdicts (C07): per request id, drawn up front
 		fwdFinish := map[int]bool{}
 		finFinish := map[int]bool{} // HandleRequestFinish filter answers BfeHandlerFinish
@@ -111,7 +139,7 @@ func runNode(focus string) func(s *simrt.Sim) {
 		}
 		e.cur = make([]*reqPlan, nconn)
 		e.net.Policy = e.policy
-		n, err := startNode(s, e.net, e.conf, nil)
+		n, err := startNode(s, e.net, e.conf, modules)
 		if err != nil {
 			s.FailK(focus+".start", "node-start-failed", "node did not start on a generated configuration: %v", err)
 			return
@@ -130,6 +158,16 @@ func runNode(focus string) func(s *simrt.Sim) {
 		}
 		if e.filt != nil {
 			e.filt.install(n.srv)
+		}
+		if e.seenAddr != nil {
+			n.srv.CallBacks.AddFilter(bfe_module.HandleAfterLocation, func(req *bfe_basic.Request) (int, *bfe_http.Response) {
+				a := "<nil>"
+				if req.ClientAddr != nil {
+					a = req.ClientAddr.String()
+				}
+				e.seenAddr[reqIDOf(req.HttpRequest.URL.Path)] = a
+				return bfe_module.BfeHandlerGoOn, nil
+			})
 		}
 		if len(finFinish) > 0 {
 			n.srv.CallBacks.AddFilter(bfe_module.HandleRequestFinish, func(req *bfe_basic.Request, res *bfe_http.Response) int {
@@ -187,6 +225,12 @@ func runNode(focus string) func(s *simrt.Sim) {
 			e.checkC08()
 		case "C48":
 			e.checkC48()
+		case "C25":
+			e.checkC25()
+		case "C29":
+			e.checkC29()
+		case "C54":
+			e.checkC54()
 		}
 	}
 }
@@ -698,4 +742,211 @@ func (e *eng) checkC48() {
 			}
 		}
 	}
+}
+
+// C25 (HTTP/1 leg): what the node writes to a backend is exactly one well-formed
+// request per forwarded request, with the client's method, target and body, and
+// no header field the client did not send (plus BFE's own framing).
+func (e *eng) checkC25() {
+	s := e.s
+	for _, a := range e.attempts {
+		if len(a.RawReq) == 0 {
+			continue
+		}
+		s.Checked(1)
+		if a.ParseErr != nil && !strings.Contains(a.ParseErr.Error(), "connection ended") {
+			s.FailK("C25.wellformed", "backend-received-malformed-request", "backend %s received bytes that a strict parser rejects (%v): %q", a.Backend, a.ParseErr, clip(a.RawReq, 300))
+			return
+		}
+		if a.Req == nil {
+			continue
+		}
+		p := e.plans[reqIDOf(a.Req.Target)]
+		if p == nil {
+			s.FailK("C25.injected", "unknown-request-at-backend", "backend %s received a request no client sent: %s %s", a.Backend, a.Req.Method, a.Req.Target)
+			return
+		}
+		if a.Req.Method != p.Method || a.Req.Target != p.Path {
+			s.FailK("C25.line", "request-line-altered", "client sent %s %q, backend received %s %q", p.Method, p.Path, a.Req.Method, a.Req.Target)
+			return
+		}
+		if !bytes.Equal(a.Req.Body, p.Body) {
+			s.FailK("C25.body", "body-altered", "request r%d: client body %d bytes, backend body %d bytes", p.ID, len(p.Body), len(a.Req.Body))
+			return
+		}
+		// every field at the backend was sent by the client (name case-insensitive, same value) or is framing / Host
+		sent := map[string][]string{}
+		for _, f := range p.Fields {
+			k := strings.ToLower(f.Name)
+			sent[k] = append(sent[k], strings.Trim(f.Value, " \t"))
+		}
+		for _, f := range a.Req.Fields {
+			k := strings.ToLower(f.Name)
+			if k == "host" || k == "content-length" || k == "transfer-encoding" || k == "user-agent" && len(sent[k]) == 0 {
+				continue
+			}
+			ok := false
+			for _, v := range sent[k] {
+				if v == f.Value || strings.Replace(strings.Replace(v, "\r\n", "", -1), "\r", "", -1) == f.Value || foldEq(v, f.Value) {
+					ok = true
+				}
+			}
+			if !ok {
+				s.FailK("C25.fields", "field-not-sent-by-client", "backend received %s: %q which the client did not send (client fields %v)", f.Name, clip([]byte(f.Value), 80), fieldNames(p.Fields))
+				return
+			}
+		}
+		s.Probe("c25_forwarded_checked")
+	}
+}
+
+// foldEq: an obs-folded value may reach the backend with the fold replaced by spaces.
+func foldEq(sent, got string) bool {
+	n := strings.Join(strings.Fields(strings.Replace(sent, "\r\n", " ", -1)), " ")
+	return n == strings.Join(strings.Fields(got), " ")
+}
+
+func inTrust(ip string) bool {
+	return strings.HasPrefix(ip, "10.77.") || ip == "172.20.1.1"
+}
+
+// C29: for an untrusted socket peer the client address BFE uses and the
+// X-Real-Ip / X-Real-Port it sends equal the peer address whatever the request
+// says, and X-Forwarded-For ends with the peer IP; trusted peers are honoured.
+func (e *eng) checkC29() {
+	s := e.s
+	for _, a := range e.attempts {
+		if a.Req == nil {
+			continue
+		}
+		p := e.plans[reqIDOf(a.Req.Target)]
+		if p == nil {
+			continue
+		}
+		peer := e.peerAddr[p.Conn]
+		ip, port := peer[:strings.LastIndex(peer, ":")], peer[strings.LastIndex(peer, ":")+1:]
+		s.Checked(1)
+		xff := a.Req.Get("X-Forwarded-For")
+		last := ""
+		if len(xff) > 0 {
+			parts := strings.Split(xff[len(xff)-1], ",")
+			last = strings.TrimSpace(parts[len(parts)-1])
+		}
+		if last != ip {
+			s.FailK("C29.xff", "xff-does-not-end-with-peer", "peer %s: X-Forwarded-For at the backend is %q", peer, xff)
+			return
+		}
+		if !inTrust(ip) {
+			if v := a.Req.Get("X-Real-Ip"); len(v) != 1 || v[0] != ip {
+				s.FailK("C29.realip", "untrusted-peer-real-ip-spoofed", "untrusted peer %s: backend received X-Real-Ip %q", peer, v)
+				return
+			}
+			if v := a.Req.Get("X-Real-Port"); len(v) != 1 || v[0] != port {
+				s.FailK("C29.realip", "untrusted-peer-real-port-spoofed", "untrusted peer %s: backend received X-Real-Port %q", peer, v)
+				return
+			}
+			if got := e.seenAddr[p.ID]; got != peer {
+				s.FailK("C29.clientaddr", "untrusted-peer-clientaddr-spoofed", "untrusted peer %s: req.ClientAddr is %s", peer, got)
+				return
+			}
+			s.Probe("c29_untrusted_checked")
+		} else {
+			// trusted: a valid X-Real-Ip sent by the peer is honoured
+			for _, f := range p.Fields {
+				if f.Name == "X-Real-Ip" && net.ParseIP(f.Value) != nil {
+					if got := e.seenAddr[p.ID]; !strings.HasPrefix(got, f.Value+":") {
+						s.FailK("C29.trusted", "trusted-peer-header-ignored", "trusted peer %s sent X-Real-Ip %s, req.ClientAddr is %s", peer, f.Value, got)
+						return
+					}
+					s.Probe("c29_trusted_checked")
+				}
+			}
+		}
+	}
+}
+
+// C54: a compressed response decompresses to exactly the backend body, carries
+// no stale Content-Length and is only sent when the request accepted that encoding.
+func (e *eng) checkC54() {
+	s := e.s
+	for _, cr := range e.clients {
+		if cr.ParseErr != nil {
+			s.FailK("C54.parse", "client-stream-unparseable", "conn %d: response stream does not parse: %v; raw=%q", cr.Conn, cr.ParseErr, clip(cr.Raw, 300))
+			return
+		}
+		fin := finals(cr.Responses)
+		for i, p := range cr.Sent {
+			if i >= len(fin) {
+				break
+			}
+			m := fin[i]
+			ce := m.Get("Content-Encoding")
+			if len(ce) == 0 {
+				continue
+			}
+			last, ap := e.servedAttempt(p)
+			if last == nil || !last.Full {
+				continue
+			}
+			s.Checked(1)
+			enc := strings.ToLower(ce[0])
+			acc := ""
+			for _, f := range p.Fields {
+				if f.Name == "Accept-Encoding" {
+					acc = f.Value
+				}
+			}
+			if !tokenIn(acc, enc) {
+				s.FailK("C54.accept", "encoding-not-accepted-by-request", "request r%d accepted %q but the response is Content-Encoding: %s", p.ID, acc, enc)
+				return
+			}
+			if m.Has("Content-Length") && m.Framing != "length" {
+				s.FailK("C54.length", "stale-content-length", "request r%d: compressed response still carries Content-Length %v", p.ID, m.Get("Content-Length"))
+				return
+			}
+			var plain []byte
+			var derr error
+			switch enc {
+			case "gzip":
+				zr, err := gzip.NewReader(bytes.NewReader(m.Body))
+				if err != nil {
+					derr = err
+				} else {
+					plain, derr = ioutil.ReadAll(zr)
+				}
+			case "br":
+				plain, derr = ioutil.ReadAll(brotli.NewReader(bytes.NewReader(m.Body)))
+			default:
+				continue
+			}
+			want := ap.Resp.Body
+			if p.Method == "HEAD" {
+				continue
+			}
+			if derr != nil || !bytes.Equal(plain, want) {
+				s.FailK("C54.body", "decompressed-body-differs", "request r%d (%s): client body (%d bytes, %s) decompresses to %d bytes (err=%v), backend body is %d bytes", p.ID, p.Method, len(m.Body), enc, len(plain), derr, len(want))
+				return
+			}
+			if m.Has("Content-Length") {
+				if v := m.Get("Content-Length"); v[0] == fmt.Sprint(len(want)) && len(want) != len(m.Body) {
+					s.FailK("C54.length", "stale-content-length", "request r%d: Content-Length %s is the uncompressed length", p.ID, v[0])
+					return
+				}
+			}
+			s.Probe("c54_compressed_checked")
+		}
+	}
+}
+
+func tokenIn(list, tok string) bool {
+	for _, t := range strings.Split(list, ",") {
+		t = strings.TrimSpace(t)
+		if i := strings.IndexByte(t, ';'); i >= 0 {
+			t = strings.TrimSpace(t[:i])
+		}
+		if strings.EqualFold(t, tok) {
+			return true
+		}
+	}
+	return false
 }
